@@ -110,6 +110,16 @@ def _struct_agg(body, adt_suffix):
             yield bi, st
 
 
+def _find_literal(prog, fn, adt_suffix):
+    """(body, statement) of the one struct literal of a type built somewhere in a function's own code (the function as
+    analysed, its closures, fn items it maps over)."""
+    hits = []
+    for b in prog.deep_bodies(fn):
+        for bi, st in _struct_agg(b, adt_suffix):
+            hits.append((b, st))
+    return hits
+
+
 def _array_ops(ix, op):
     """Operands of the array literal an operand was built from, or None."""
     r = ix.resolve(op)
@@ -182,11 +192,14 @@ def run(ctx):
         ctx.fail_closed("BONES", "skeleton::Skeleton::from_existing not found")
     else:
         ix = index_of(fb)
-        aggs = list(_struct_agg(fb, "skeleton::Bone"))
-        if len(aggs) != 1:
-            ctx.fail_closed("BONES", f"expected one Bone literal, found {len(aggs)}")
+        top_ix = ix
+        hits = _find_literal(prog, "skeleton::Skeleton::from_existing", "skeleton::Bone")
+        if len(hits) != 1:
+            ctx.fail_closed("BONES", f"expected one Bone literal, found {len(hits)}")
         else:
-            _bi, st = aggs[0]
+            lb, st = hits[0]
+            in_closure = lb.name != fb.name
+            ix = index_of(lb)
             ops = dict(zip(st["rv"]["fields"], st["rv"]["ops"]))
             want = {"name": ({"bone_names"}, None), "parent_index": ({"parent_indices"}, None), "position": ({"reference_pose", "translation"}, [0, 1, 2]), "rotation": ({"reference_pose", "rotation"}, None), "scale": ({"reference_pose", "scale"}, [0, 1, 2])}
             others = {"bone_names", "parent_indices", "translation", "rotation", "scale"}
@@ -197,6 +210,8 @@ def run(ctx):
                     continue
                 d = derive(ix, ops[f], skip_index=True)
                 ok = need <= d.names and not ((others - need) & d.names)
+                if in_closure and f == "name" and not (others & d.names) and 2 in d.params:
+                    ok = True  # the element handed to the closure by iter().enumerate() over bone_names (checked below)
                 det = f"Bone.{f} derives from {sorted(d.names & (others | {'reference_pose'}))}"
                 if lanes is not None:
                     arr = _array_ops(ix, ops[f])
@@ -211,13 +226,27 @@ def run(ctx):
             # same index everywhere: every element access of the three arrays uses the enumerate() counter
             n_acc = 0
             same = True
-            for bi, t in _elem_calls(fb):
+            for bi, t in _elem_calls(lb):
                 if P.source_name(ix, t["args"][0]) not in ("parent_indices", "reference_pose"):
                     continue
                 n_acc += 1
                 di = derive(ix, t["args"][1])
                 calls = {_last(c) for c in di.calls}
-                same = same and "next" in calls and "enumerate" in calls and not (di.consts - {0}) and not (di.ops - {"Add"})
+                if in_closure:
+                    # the closure receives (index, bone) from enumerate(): the index is field 0 of its argument
+                    same = same and di.params == {2} and not di.consts and not di.ops and not di.calls
+                else:
+                    same = same and "next" in calls and "enumerate" in calls and not (di.consts - {0}) and not (di.ops - {"Add"})
+            if in_closure:
+                # ... and the closure is mapped over bone_names.iter().enumerate()
+                dm = None
+                for _b, t in fb.calls():
+                    for a in t["args"]:
+                        r_ = top_ix.resolve(a)
+                        if r_[0] == "rv" and r_[1]["k"] == "agg" and r_[1].get("ak") == "closure" and r_[1].get("closure") == lb.name:
+                            dm = derive(top_ix, t["args"][0])
+                same = same and dm is not None and "bone_names" in dm.names and "enumerate" in {_last(c) for c in dm.calls}
+            ix = top_ix
             ctx.ob("BONES", "same-index", same and n_acc >= 8, f"{n_acc} element accesses of parent_indices / reference_pose use the enumerate() counter of bone_names unchanged", fb.file, fb.line)
             d0 = None
             for bi, t in _elem_calls(fb):
@@ -576,11 +605,15 @@ def run(ctx):
         ctx.fail_closed("TERA", "tera::Terrain::from_existing / write_to_buffer not found")
     else:
         ix = index_of(tb)
-        aggs = list(_struct_agg(tb, "tera::PlateModel"))
-        if len(aggs) != 1:
+        thits = _find_literal(prog, "tera::Terrain::from_existing", "tera::PlateModel")
+        if len(thits) != 1:
             ctx.fail_closed("TERA", "expected one PlateModel literal in from_existing")
         else:
-            ops = dict(zip(aggs[0][1]["rv"]["fields"], aggs[0][1]["rv"]["ops"]))
+            lit_b = thits[0][0]
+            tb_top = tb
+            tb = lit_b
+            ix = index_of(lit_b)
+            ops = dict(zip(thits[0][1]["rv"]["fields"], thits[0][1]["rv"]["ops"]))
             r = ix.resolve(ops["position"])
             lanes = r[1]["ops"] if r[0] == "rv" and r[1]["k"] == "agg" else []
             for i, axis in enumerate(("x", "y")):
@@ -589,7 +622,8 @@ def run(ctx):
                 if i < len(lanes):
                     d = derive(ix, lanes[i])
                     other = "y" if axis == "x" else "x"
-                    ok = {"plate_size", "positions", axis} <= d.names and other not in d.names and d.ops == {"Mul", "Add"} and F32_HALF in d.consts
+                    elem_ok = "positions" in d.names or (lit_b.name != tb_top.name and 2 in d.params)
+                    ok = {"plate_size", axis} <= d.names and elem_ok and other not in d.names and d.ops == {"Mul", "Add"} and F32_HALF in d.consts
                     # the multiplication is the outer operation: plate_size * (cell + 0.5), not (plate_size * cell) + 0.5
                     rr = ix.resolve(lanes[i])
                     outer = rr[1]["op"] if rr[0] == "rv" and rr[1]["k"] == "bin" else None
